@@ -71,7 +71,12 @@ def _(fn):
 @affine_inputs.register(Binary)
 def _(fn):
     if fn.op in (ops.add, ops.sub):
-        return affine_inputs(fn.lhs) | affine_inputs(fn.rhs)
+        lhs_affine, rhs_affine = affine_inputs(fn.lhs), affine_inputs(fn.rhs)
+        # an input that either side depends on non-affinely is not affine in the sum
+        nonaffine = (_real_inputs(fn.lhs) - lhs_affine) | (
+            _real_inputs(fn.rhs) - rhs_affine
+        )
+        return (lhs_affine | rhs_affine) - nonaffine
     if fn.op is ops.truediv:
         return affine_inputs(fn.lhs) - _real_inputs(fn.rhs)
     if isinstance(fn.op, ops.GetitemOp):
